@@ -326,7 +326,8 @@ func init() {
 			}
 			li := ruleLocalIdx(c, func(f string) bool { return filepath.Base(filepath.Dir(f)) == "graph" }, false)
 			li.MinInst = 4
-			return []*RuleResult{ro, mc, so, wk, li}
+			sa := ruleSiblingAppend(c, func(f string) bool { return filepath.Base(filepath.Dir(f)) == "graph" })
+			return []*RuleResult{ro, mc, so, wk, li, sa}
 		},
 		controls: func(ctl *Ctx) []*RuleResult {
 			mc := &RuleResult{Rule: "MAKECAP"}
@@ -339,7 +340,7 @@ func init() {
 			wk := &RuleResult{Rule: "WALK"}
 			ruleWalk(ctl, wk, "compctl.BadWalkShared")
 			ruleWalk(ctl, wk, "compctl.GoodWalkSnapshot")
-			return []*RuleResult{mc, so, wk, ruleLocalIdx(ctl, func(f string) bool { return filepath.Base(f) == "idxctl.go" }, false)}
+			return []*RuleResult{mc, so, wk, ruleLocalIdx(ctl, func(f string) bool { return filepath.Base(f) == "idxctl.go" }, false), ruleSiblingAppend(ctl, func(f string) bool { return filepath.Base(f) == "idxctl.go" })}
 		},
 	})
 }
@@ -751,5 +752,147 @@ func ruleLocalIdx(c *Ctx, files func(string) bool, upperAll bool) *RuleResult {
 		}
 	}
 	r.inst("%d exported functions scanned for indices into their own allocations", nf)
+	return r
+}
+
+// ruleSiblingAppend: inside a loop, `child := append(base, v)` with a base that the loop does not
+// change gives every iteration a slice over the *same* spare capacity of base: all the children
+// pushed on a work list end in the element of the last one (a path extended by each neighbour in
+// turn). Reported when the base is defined outside the loop, is not cut to its length with a
+// full slice expression, and the result is kept (stored, appended to another slice, passed on).
+func ruleSiblingAppend(c *Ctx, files func(string) bool) *RuleResult {
+	r := &RuleResult{Rule: "SIBLINGAPPEND", Doc: "no loop appends, iteration after iteration, to one and the same slice value that it does not itself replace (the results would share the spare capacity)", MinInst: 1}
+	nf := 0
+	for _, fn := range c.Funcs {
+		if fn.Synthetic != "" || fn.Blocks == nil || !files(c.Fset.Position(fn.Pos()).Filename) {
+			continue
+		}
+		nf++
+		loops := loopsOf(fn)
+		for _, b := range fn.Blocks {
+			for _, in := range b.Instrs {
+				call, ok := in.(*ssa.Call)
+				if !ok {
+					continue
+				}
+				bi, isB := call.Call.Value.(*ssa.Builtin)
+				if !isB || bi.Name() != "append" || len(call.Call.Args) < 2 {
+					continue
+				}
+				base := call.Call.Args[0]
+				if k, isK := base.(*ssa.Const); isK && k.Value == nil {
+					continue // append([]T(nil), ...): a fresh copy
+				}
+				if sl, ok := base.(*ssa.Slice); ok && sl.Max != nil {
+					continue // base[:n:n] has no spare capacity
+				}
+				if sl, ok := base.(*ssa.Slice); ok {
+					if k, isK := constInt(sl.High); isK && k == 0 && sl.Low == nil {
+						// x[:0] re-used as a buffer on purpose
+						continue
+					}
+				}
+				// innermost loop containing the append
+				var body map[*ssa.BasicBlock]bool
+				for _, bd := range loops {
+					if bd[b] && (body == nil || len(bd) < len(body)) {
+						body = bd
+					}
+				}
+				if body == nil {
+					continue
+				}
+				// base defined outside that loop (an instruction outside it, a parameter, a global load outside)
+				var invariant func(v ssa.Value, d int) bool
+				invariant = func(v ssa.Value, d int) bool {
+					switch x := v.(type) {
+					case *ssa.Parameter, *ssa.FreeVar, *ssa.Const:
+						return true
+					case *ssa.Field: // a field of a struct value the loop does not change
+						if d < 4 && invariant(x.X, d+1) {
+							return true
+						}
+					case *ssa.ChangeType:
+						if d < 4 && invariant(x.X, d+1) {
+							return true
+						}
+					case *ssa.UnOp:
+						// a load of (a field of) a local variable that lives outside the loop and that the
+						// loop never stores to
+						if x.Op == token.MUL {
+							addr := x.X
+							if fa, ok := addr.(*ssa.FieldAddr); ok {
+								addr = fa.X
+							}
+							if al, ok := addr.(*ssa.Alloc); ok && !body[al.Block()] {
+								written := false
+								for bb := range body {
+									for _, ins := range bb.Instrs {
+										switch y := ins.(type) {
+										case *ssa.Store:
+											a2 := y.Addr
+											if fa, ok := a2.(*ssa.FieldAddr); ok {
+												a2 = fa.X
+											}
+											if a2 == ssa.Value(al) {
+												written = true
+											}
+										case *ssa.Call:
+											for _, arg := range y.Call.Args {
+												if arg == ssa.Value(al) {
+													written = true
+												}
+											}
+										}
+									}
+								}
+								if !written {
+									return true
+								}
+							}
+						}
+					}
+					if in, ok := v.(ssa.Instruction); ok {
+						return !body[in.Block()]
+					}
+					return false
+				}
+				if !invariant(base, 0) {
+					continue
+				}
+				// the result is kept: some use other than feeding the next append of the same chain
+				kept := false
+				if refs := call.Referrers(); refs != nil {
+					for _, ref := range *refs {
+						switch ref.(type) {
+						case *ssa.DebugRef:
+						default:
+							kept = true
+						}
+					}
+				}
+				if !kept {
+					continue
+				}
+				// a variadic append of another slice's contents (append(base, xs...)) to a base of length 0
+				// and capacity 0 is a copy idiom: make([]T, 0) / []T{} outside the loop
+				if mk, ok := base.(*ssa.MakeSlice); ok {
+					if l, isL := constInt(mk.Len); isL && l == 0 {
+						if cp, isC := constInt(mk.Cap); isC && cp == 0 {
+							continue
+						}
+					}
+				}
+				src := c.srcAt(call.Pos())
+				if src == "" {
+					src = valName(call)
+				}
+				r.inst("%s: %s", c.short(fn), src)
+				r.oblig(false)
+				r.find(c.short(fn)+":"+src+" extends one base in every iteration", c.instrPos(call), "%s: %s appends, in every iteration of the loop, to the same slice value %s (defined outside the loop and not replaced by it): when that slice has spare capacity the results share it and each one ends in what the last iteration wrote", c.short(fn), src, valName(base))
+			}
+		}
+	}
+	r.inst("%d functions scanned for sibling appends", nf)
 	return r
 }
